@@ -32,6 +32,9 @@ type routeCase struct {
 	Cfg    hook.ClientCfg `json:"cfg"`
 	Call   api.Case       `json:"call"`
 	Decoys int            `json:"decoys"`
+	// Behaviour of the addressed endpoint: 0 answers at once, 1 answers after 70% of the timeout, 2 stays silent
+	// (a slow or silent controller must still see exactly one request)
+	Behaviour int `json:"behaviour,omitempty"`
 }
 
 func kinds(c routeCase) (map[string]bool, bool) {
@@ -72,7 +75,7 @@ func invoke(c routeCase, call func(cs api.Case) api.Result, discover func() erro
 
 func runHook(c routeCase) *rp.Fail {
 	u, d := hook.Mem(c.Cfg)
-	if r := validReply(c.Call.Call); r != nil {
+	if r := validReply(c.Call.Call); r != nil && c.Behaviour != 2 {
 		d.Reset(r)
 	}
 	res, discovery := invoke(c, func(cs api.Case) api.Result { return api.Invoke(u, cs) }, func() error { _, err := u.GetDevices(); return err })
@@ -124,17 +127,27 @@ func runSocket(c routeCase) (fail *rp.Fail, skipped bool) {
 		}
 		return nil
 	}
+	const timeoutMs = 400
+	answer := func(req []byte) []farm.Action {
+		switch c.Behaviour {
+		case 1:
+			return []farm.Action{{Delay: timeoutMs * 7 / 10 * time.Millisecond, Data: reply(req)}}
+		case 2:
+			return nil
+		}
+		return []farm.Action{{Data: reply(req)}}
+	}
 	open := func(ip [4]byte) (pair, bool) {
 		for try := 0; try < 20; try++ {
 			port, err := farm.FreePort(ip)
 			if err != nil {
 				break
 			}
-			u, err := f.UDP(ip, port, farm.Script(func(r farm.Received) []farm.Action { return []farm.Action{{Data: reply(r.Data)}} }))
+			u, err := f.UDP(ip, port, farm.Script(func(r farm.Received) []farm.Action { return answer(r.Data) }))
 			if err != nil {
 				continue
 			}
-			t, err := f.TCP(ip, port, farm.ScriptTCP(func(r farm.Received) []farm.Action { return []farm.Action{{Data: reply(r.Data)}} }))
+			t, err := f.TCP(ip, port, farm.ScriptTCP(func(r farm.Received) []farm.Action { return answer(r.Data) }))
 			if err != nil {
 				u.Close()
 				continue
@@ -145,7 +158,7 @@ func runSocket(c routeCase) (fail *rp.Fail, skipped bool) {
 	}
 	cfg := c.Cfg
 	cfg.Devices = append([]hook.DeviceCfg(nil), c.Cfg.Devices...)
-	cfg.TimeoutMs = 400
+	cfg.TimeoutMs = timeoutMs
 	endpoints := map[string]pair{} // by role
 	names := []string{}
 	// controllers with a usable address
@@ -173,7 +186,7 @@ func runSocket(c routeCase) (fail *rp.Fail, skipped bool) {
 		endpoints["broadcast"] = p
 	} else {
 		// the real limited broadcast: needs the well-known port
-		u, err := f.UDP([4]byte{0, 0, 0, 0}, 60000, farm.Script(func(r farm.Received) []farm.Action { return []farm.Action{{Data: reply(r.Data)}} }))
+		u, err := f.UDP([4]byte{0, 0, 0, 0}, 60000, farm.Script(func(r farm.Received) []farm.Action { return answer(r.Data) }))
 		if err != nil {
 			return nil, true
 		}
@@ -206,6 +219,9 @@ func runSocket(c routeCase) (fail *rp.Fail, skipped bool) {
 		return nil, true // no route for the limited broadcast in this sandbox
 	}
 	time.Sleep(30 * time.Millisecond) // grace period for stray duplicates
+	if c.Behaviour != 0 {
+		time.Sleep(timeoutMs * time.Millisecond / 2) // a retransmission scheduled for later would still arrive now
+	}
 	wantMethod, _ := cfg.Route(c.Call.Call.Serial, discovery)
 	wantName, wantTCP := "broadcast", false
 	if wantMethod == "SendUDP" || wantMethod == "SendTCP" {
@@ -254,7 +270,7 @@ func runSocket(c routeCase) (fail *rp.Fail, skipped bool) {
 			}
 		}
 	}
-	if res.Err != nil && c.Call.Call.Op != "GetDevices" {
+	if res.Err != nil && c.Call.Call.Op != "GetDevices" && c.Behaviour != 2 {
 		return rp.Failf("socket/call-failed", "%s (route %s) failed although the right endpoint answered: %v", c.Call.Call.Op, wantMethod, res.Err), false
 	}
 	return nil, false
@@ -272,6 +288,7 @@ func check(c routeCase) *rp.Fail {
 	if c.Cfg.BindPort != 0 {
 		ev.Class(c.Layer+"/fixed-bind-port", 1)
 	}
+	ev.Class(c.Layer+"/controller-"+[]string{"answers-at-once", "answers-late", "silent"}[c.Behaviour], 1)
 	if ev.WantSample(class) {
 		ev.Sample(class, c)
 	}
@@ -296,6 +313,12 @@ func check(c routeCase) *rp.Fail {
 func genCase(layer string) func(t *rapid.T) routeCase {
 	return func(t *rapid.T) routeCase {
 		c := routeCase{Layer: layer, Decoys: rapid.IntRange(0, 2).Draw(t, "decoys")}
+		switch rapid.IntRange(0, 9).Draw(t, "behaviour") {
+		case 0, 1:
+			c.Behaviour = 1
+		case 2:
+			c.Behaviour = 2
+		}
 		if rapid.Bool().Draw(t, "bind.specific") {
 			c.Cfg.BindIP = [4]byte{127, 0, 0, byte(rapid.IntRange(1, 9).Draw(t, "bind.ip"))}
 		}
@@ -354,7 +377,7 @@ func genCase(layer string) func(t *rapid.T) routeCase {
 func props() []rp.Prop {
 	return []rp.Prop{
 		rp.P[routeCase]{Name: "hook-route", Checks: ev.Pick(60000, 2000000) / ev.Shards(), Gen: genCase("hook"), Check: check},
-		rp.P[routeCase]{Name: "socket-route", Checks: ev.Pick(800, 24000) / ev.Shards(), Gen: genCase("socket"), Check: check},
+		rp.P[routeCase]{Name: "socket-route", Checks: ev.Pick(640, 24000) / ev.Shards(), Gen: genCase("socket"), Check: check},
 	}
 }
 
